@@ -243,6 +243,7 @@ def gen_plan(seed):
         return rng.sample(VARS, min(len(VARS), cfg['poolsize']))
 
     occ = {}      # slot -> ordering index
+    built = []    # (expression, ordering index) of earlier builds
     ops = []
     if crowd and rng.random() < 0.7:
         # the usual way to start: one diagram per variable
@@ -277,6 +278,9 @@ def gen_plan(seed):
                       ('drop', 0.5 if filling else
                        (3 if crowd else cfg['w_drop'])),
                       ('drop_deferred', cfg['w_deferred'])]
+        if built and norder > 1 and not cfg['one_ordering']:
+            # the very same expression text under another ordering
+            kinds.append(('rebuild', 1.5))
         kinds.append(('gc', cfg['w_gc']))
         kinds.append(('bad_build', cfg['w_bad']))
         kinds.append(('bad_raw', 0.7 * cfg['w_bad']))
@@ -313,6 +317,14 @@ def gen_plan(seed):
                 d = rng.choice([0, 0, 0, 1] if crowd else [0, 1])
             op = {'k': 'build', 's': slot,
                   'e': gen_expr(rng, d, pool()), 'o': oi}
+            occ[slot] = oi
+            built.append((op['e'], oi))
+            if len(built) > 12:
+                built.pop(0)
+        elif kind == 'rebuild':
+            e, oi0 = rng.choice(built)
+            oi = rng.choice([k for k in range(norder) if k != oi0])
+            op = {'k': 'build', 's': slot, 'e': e, 'o': oi}
             occ[slot] = oi
         elif kind == 'combine':
             a = rng.choice(sorted(occ))
